@@ -136,7 +136,7 @@ def gen_case(rng, tier, ctx, i):
     rec = common.model_case(rng, tier, o)
     if rec is None:
         return None
-    return {"recipe": rec, "seed": rng.getrandbits(32)}
+    return common.with_twins(rng, {"recipe": rec, "seed": rng.getrandbits(32)})
 
 
 def rand_assumption(rng, graph, top):
@@ -163,7 +163,7 @@ def rand_assumption(rng, graph, top):
     return d
 
 
-def run_case(case, ctx):
+def _run_one(case, ctx):
     rng = random.Random(case["seed"])
     m0 = recipes.fresh(case["recipe"])
     if adapters.is_leaf(m0):
@@ -173,3 +173,16 @@ def run_case(case, ctx):
         d = rand_assumption(rng, graph, top)
         m = recipes.fresh(case["recipe"])
         ctx.call("assume", m.assume, d)
+
+
+def run_case(case, ctx):
+    """the base recipe, then its hostile twins (same ids, bounds/thresholds that collide under the library's hashes)"""
+    for k, rec in enumerate(common.recipes_of(case)):
+        sub = dict(case, recipe=rec)
+        sub.pop("twins", None)
+        if k:
+            ctx.count("count:twin-runs")
+        try:
+            _run_one(sub, ctx)
+        except monitor.OutOfScope:
+            ctx.count("case:out_of_scope" if k == 0 else "twin:out_of_scope")
